@@ -232,15 +232,21 @@ class Container:
         raise NotImplementedError
 
     def _checkForCrossReferences(self, memo=None):
-        if not self._checkedForCrossReferences:
-            if memo is None:
-                memo = set()
-            if any(x is self for x in memo):
-                raise ContainerException(f"cannot fill a tree that contains the same aggregator twice: {self}")
-            memo.add(self)
-            for child in self.children:
+        if memo is None:
+            # the once-only flag short-cuts the walk at the root of a fill only: a node reached a second time during
+            # one walk must still be compared with the memo
+            if self._checkedForCrossReferences:
+                return
+            memo = set()
+        if id(self) in memo:
+            raise ContainerException(f"cannot fill a tree that contains the same aggregator twice: {self!r}")
+        memo.add(id(self))
+        # the value template of a sparse container is never filled itself and may be shared between containers
+        template = self.__dict__.get("value", None)
+        for child in self.children:
+            if child is not None and child is not template:
                 child._checkForCrossReferences(memo)
-            self._checkedForCrossReferences = True
+        self._checkedForCrossReferences = True
 
     def toJsonFile(self, fileName):
         path = Path(fileName)
